@@ -83,6 +83,7 @@ RULES = {
     "R42": _get(XR, "r42_writeback_gated"),
     "R43": _get(XR, "r43_gradients_taken_on_every_path"),
     "R44": _get(XR, "r44_stateless_derivative"),
+    "R46": _get(XR, "r46_update_formula"),
     "R29": _get(SR, "r29_matmul_adjoint_shapes"),
     "R31": _get(SR, "r31_reduce_last"),
     "R30": _get(GR, "r30_conv_geometry"),
@@ -97,28 +98,29 @@ RULES = {
     "R40": _get(BR, "r40_broadcast"),
     "R41": _get(IR, "r41_multi_index"),
     "R45": _get(DT, "r45_no_detached_dependence"),
+    "R40c": _get(BR, "r40_alignment_only"),
 }
 
 # property -> rules (DESIGN.md section 4)
 PROPERTY_RULES = {
-    "C01": ["R9", "R8", "R5", "R27", "R6", "R24", "R11", "R25", "R23", "R26", "R45"],
+    "C01": ["R9", "R8", "R5", "R27", "R6", "R24", "R11", "R25", "R23", "R26", "R45", "R10"],
     "C02": ["R12", "R13", "R15", "R9", "R33", "R29", "R31", "R30", "R32", "R39", "R11", "R45"],
     "C03": ["R11", "R21"],
     "C04": ["R40"],
-    "C05": ["R36", "R38"],
+    "C05": ["R36", "R38", "R40c"],
     "C06": ["R37", "R30"],
     "C07": ["R35", "R16"],
     "C08": ["R1", "R2", "R3", "R4", "R7"],
-    "C09": ["R8", "R9", "R10", "R5"],
+    "C09": ["R8", "R9", "R10", "R5", "R24"],
     "C10": ["R23", "R20", "R25", "R9", "R11", "R10", "R26", "R24", "R44"],
     "C11": ["R24", "R5", "R27", "R6", "R26", "R9"],
     "C12": ["R5", "R27", "R3", "R6", "R7", "R17", "R23"],
-    "C13": ["R21", "R22", "R28", "R42", "R43"],
-    "C14": ["R21", "R28", "R22", "R20", "R24", "R23", "R42", "R43", "R9"],
+    "C13": ["R21", "R22", "R28", "R42", "R43", "R46"],
+    "C14": ["R21", "R28", "R22", "R20", "R24", "R23", "R42", "R43", "R9", "R46"],
     "C15": ["R34", "R30"],
     "C16": ["R16", "R3", "R17", "R41"],
     "C17": ["R13", "R14", "R26", "R44"],
-    "C18": ["R20", "R21", "R7", "R8"],
+    "C18": ["R20", "R21", "R7", "R8", "R16"],
     "C19": ["R19"],
 }
 
